@@ -8,12 +8,13 @@ from hypothesis import strategies as st
 import aiohomekit.controller.coap.connection as coap_conn_mod
 from vlib import refhap, vtime
 from vlib.coapsim import CHARS, CoapWorld
+from props._listeners import attach as attach_listeners, check_same as listeners_agree
 from vlib.refhap import T_ERROR, T_STATE, tlv_dec
 from vlib.runner import Layer
 
 READABLE = {i for i, c in CHARS.items() if c[3] & 0x10}
 WRITABLE = {i for i, c in CHARS.items() if c[3] & 0x20}
-OUTCOMES = ["ok", 1, 2, 3, 4, 5, 6, "tid", "ctl"]
+OUTCOMES = ["ok", 1, 2, 3, 4, 5, 6, "tid", "ctl", "6+body"]       # "6+body": status 6 and a 3-byte body (every PDU has a body length; nothing forces 0 on errors)
 
 
 def value_for(iid, sel):
@@ -50,10 +51,11 @@ def run_c13_coap(case, R):
         w = CoapWorld(loop, k=case.get("k", 0))
         try:
             p = w.pairing
-            events = []
-            p.dispatcher_connect(lambda ev: events.append(dict(ev)))
+            logs = attach_listeners(p)
+            events = logs[0]
             await p.list_accessories_and_characteristics()
-            events.clear()
+            for l_ in logs:
+                l_.clear()
             unknown = [iid for iid in ids if iid not in CHARS]          # not in the accessory's database (stale entity, wrong id)
             values = {iid: (value_for(iid, case.get("sel", 0) + i) if iid in CHARS else 7) for i, iid in enumerate(ids)}
             if unknown:
@@ -70,6 +72,8 @@ def run_c13_coap(case, R):
                     return {"tid": (i + 7) & 0xFF}
                 if outs[i] == "ctl":
                     return {"ctl": 0x00}
+                if outs[i] == "6+body":
+                    return {"status": 6, "body": b"\x01\x01\x00"}
                 return None
             w.acc.item_fault = item_fault
             what = f"CoAP {mode} {ids} outcomes {outs}"
@@ -108,6 +112,8 @@ def run_c13_coap(case, R):
                     R.fail("C13.rejected-reported-as-written" if mode == "write" else "C13.read-status", f"{what}: {iid} is not in the accessory database; result {got!r}", code="coap-unknown")
                     return
             ids_known = [(iid, o) for iid, o in zip(ids, outs) if iid in CHARS]
+            if not listeners_agree(R, logs, what):
+                return
             notified = {}
             for ev in events:
                 for key, val in ev.items():
@@ -133,7 +139,7 @@ def run_c13_coap(case, R):
                         if not got or not got.get("status"):
                             R.fail("C13.rejected-reported-as-written", f"{what}: item {i} ({iid}) failed ({o}); result {got!r}", code="coap")
                             return
-                        if isinstance(o, int) and abs(got["status"]) != o:
+                        if (isinstance(o, int) or o == "6+body") and abs(got["status"]) != (6 if o == "6+body" else o):
                             R.fail("C13.rejected-reported-as-written", f"{what}: item {i} ({iid}) status {o}; result {got!r}", code="coap-status")
                             return
                         if notified.get(iid):
@@ -184,7 +190,7 @@ def c13_coap_cases(draw):
 
 C13_LAYERS = [
     Layer("coap-batch-table", run_c13_coap, enumerate=enum_c13_coap, exhaustive=True,
-          space="write and read batches of 1..3 items x 9 per-item outcomes (ok, PDU status 1..6, wrong tid, wrong control bits); quick: every 3rd vector for n = 3", min_nontrivial=300),
+          space="write and read batches of 1..3 items x 10 per-item outcomes (ok, PDU status 1..6, status with a non-empty body, wrong tid, wrong control bits); quick: every 3rd vector for n = 3", min_nontrivial=300),
     Layer("coap-batch-gen", run_c13_coap, strategy=c13_coap_cases, n={"quick": 2000, "thorough": 30000}),
 ]
 
@@ -469,8 +475,10 @@ C01_COAP_LAYERS = [Layer("coap-transport", run_c01_coap, enumerate=lambda tier: 
 def run_c12_coap(case, R):
     """notifications = list of notifications, each a list of (iid, value selector) records; listeners: kinds normal / raising."""
     notes = case["notes"]
-    R.nt(any(len(n) >= 2 for n in notes) or "raising" in case["listeners"])
+    R.nt(any(len(n) >= 2 for n in notes) or "raising" in case["listeners"] or any(n and n[0][0] == "bad" for n in notes))
     R.cls("coap-events", "repeated-iid" if any(len({i for i, _ in n}) < len(n) for n in notes) else "distinct-iids")
+    if any(n and n[0][0] == "bad" for n in notes):
+        R.cls("coap-events:undecryptable")
 
     async def main(loop):
         w = CoapWorld(loop, k=case.get("k", 0))
@@ -492,6 +500,26 @@ def run_c12_coap(case, R):
                 log.clear()
             expect = []
             for n, note in enumerate(notes):
+                if note and note[0][0] == "bad":
+                    # a datagram that does not authenticate (late one of an earlier session, duplicate, garbage): refused, nothing delivered,
+                    # and the genuine notifications after it still arrive
+                    kind = note[0][1] % 3
+                    if kind == 0:
+                        ct = bytes((i * 37 + n) & 0xFF for i in range(24))
+                    elif kind == 1:
+                        ct = refhap.aead_enc(bytes(range(32)), refhap.nonce(ctr=0), b"\x00\x0b\x00\x03\x00\x01\x01\x01", b"")
+                    else:
+                        prev = [c for k_, c in w.acc.sent if k_ == w.acc.sess["ev"]]
+                        ct = prev[-1] if prev else b"\x00" * 20
+                    try:
+                        resp = await w.push_event(ct)
+                    except Exception as e:  # noqa: BLE001
+                        R.fail("C12.event-breaks-connection", f"CoAP undecryptable datagram {n}: handler raised {type(e).__name__}: {e}", exc=type(e).__name__)
+                        return
+                    if str(resp.code) == "2.03 Valid":
+                        R.fail("C12.listener-log", f"CoAP: a datagram that does not authenticate was answered {resp.code}", kind="extra", raising_peer=False)
+                        return
+                    continue
                 items = []
                 for iid, sel in note:
                     v = value_for(iid, sel)
@@ -520,7 +548,8 @@ def run_c12_coap(case, R):
 @st.composite
 def c12_coap_cases(draw):
     rec = st.tuples(st.sampled_from([10, 11, 11, 12, 14]), st.integers(0, 40)).map(list)
-    return {"notes": draw(st.lists(st.lists(rec, min_size=1, max_size=4), min_size=1, max_size=4)), "k": draw(st.integers(0, 5)),
+    bad = st.tuples(st.just("bad"), st.integers(0, 2)).map(lambda t: [list(t)])
+    return {"notes": draw(st.lists(st.one_of(st.lists(rec, min_size=1, max_size=4), st.lists(rec, min_size=1, max_size=4), bad), min_size=1, max_size=5)), "k": draw(st.integers(0, 5)),
             "listeners": draw(st.lists(st.sampled_from(["normal", "normal", "raising"]), min_size=1, max_size=3))}
 
 
@@ -529,6 +558,9 @@ def enum_c12_coap(tier):
     yield {"notes": [[[11, 3], [11, 7]], [[11, 3]]], "listeners": ["normal", "raising", "normal"]}
     yield {"notes": [[[10, 1], [11, 2], [12, 3], [14, 5]]], "listeners": ["raising", "normal"]}
     yield {"notes": [[[11, 1]], [[11, 2]], [[11, 2]]], "listeners": ["normal"]}
+    for kind in (0, 1, 2):
+        yield {"notes": [[[11, 1]], [["bad", kind]], [[11, 2]], [["bad", kind]], [["bad", (kind + 1) % 3]], [[10, 1], [11, 3]]], "listeners": ["normal", "normal"]}
+        yield {"notes": [[["bad", kind]], [[11, 5]]], "listeners": ["normal"]}
 
 
 C12_COAP_LAYERS = [Layer("coap-events-fixed", run_c12_coap, enumerate=enum_c12_coap, exhaustive=True, space="4 fixed notification shapes (repeated instance id in one notification, raising listeners)"),
